@@ -49,7 +49,17 @@ def run(ctx):
         traces = []
         for i in range(nt):
             p = mk(rng)
-            xs = D.shifty_stream(rng, ln, grid=rng.choice([None, None, 0.5]))
+            g = rng.choice([None, None, 0.5])
+            if kind == "Cusum" and i % 5 == 4:
+                g = 0.5
+            xs = D.shifty_stream(rng, ln, grid=g)
+            if kind == "Cusum" and i % 5 == 4:
+                # the test is translation-invariant: the same stream riding on a large level (timestamps, counters).  Values on a grid of
+                # 0.5 plus a power of two keep every sum exact, so the specification's and the implementation's means are the same number
+                off = float(2 ** rng.choice([24, 30]))
+                xs = [x + off for x in xs]
+                if p["target"] is not None:
+                    p["target"] = p["target"] + off
             if kind == "Cusum" and i % 5 == 2:
                 # the cumulative-sum test works on standardised observations: the same stream in very small or very large units
                 sc = rng.choice([1e-9, 1e-12, 1e7])
